@@ -3,6 +3,7 @@ package c17
 
 import (
 	"bytes"
+	"encoding/gob"
 	"fmt"
 	"io"
 	"os"
@@ -14,8 +15,11 @@ import (
 	"verif/harness/h"
 
 	"github.com/itchio/lake"
+	"github.com/itchio/lake/pools/fspool"
 	"github.com/itchio/wharf/pwr"
 	"github.com/itchio/wharf/pwr/bowl"
+	"github.com/itchio/wharf/pwr/patcher"
+	"github.com/pkg/errors"
 	"pgregory.net/rapid"
 )
 
@@ -33,6 +37,9 @@ type Spec struct {
 	// is the one file left out of the whitelist.
 	Many int `json:"many,omitempty"`
 	Edit int `json:"edit,omitempty"`
+	// StopAt > 0: additionally apply with the same whitelist in two sessions - stop at the StopAt-th
+	// checkpoint, resume from its gob copy in a brand-new patcher (whitelist set again) and bowl
+	StopAt int `json:"stop_at,omitempty"`
 }
 
 type recBowl struct {
@@ -230,7 +237,116 @@ func check(s Spec) h.Result {
 		}
 	}
 	nt := len(wl) > 0 && adjacent
+	if s.StopAt > 0 && s.Many == 0 {
+		if m := stopAndResume(s, patch, od, filepath.Join(d, "out2"), wl, wantReads, dp, want, &cl); m != "" {
+			return h.Result{Fail: m, Classes: cl}
+		}
+	}
 	return h.Result{Classes: cl, NonTrivial: nt}
+}
+
+type stopper struct {
+	n, stopAt int
+	ck        []byte
+	err       error
+}
+
+func (sc *stopper) ShouldSave() bool { return true }
+func (sc *stopper) Save(c *patcher.Checkpoint) (patcher.AfterSaveAction, error) {
+	sc.n++
+	if sc.n == sc.stopAt {
+		b := new(bytes.Buffer)
+		if err := gob.NewEncoder(b).Encode(c); err != nil {
+			sc.err = err
+			return patcher.AfterSaveStop, err
+		}
+		sc.ck = b.Bytes()
+		return patcher.AfterSaveStop, nil
+	}
+	return patcher.AfterSaveContinue, nil
+}
+
+// stopAndResume applies the patch with the whitelist in two sessions and checks the same things as the
+// one-shot application, summed over both sessions.
+func stopAndResume(s Spec, patch []byte, od, out string, wl map[int64]bool, wantReads map[int64]bool, dp *h.DecodedPatch, want h.Disk, cl *[]string) string {
+	calls := map[int64]int{}
+	var touched int64
+	var ck []byte
+	for session := 0; session < 2; session++ {
+		p, err := patcher.New(h.Source(patch), h.Quiet())
+		if err != nil {
+			return fmt.Sprintf("patcher.New: %v", err)
+		}
+		p.SetSourceIndexWhitelist(wl)
+		st := &stopper{stopAt: -1}
+		if session == 0 {
+			st.stopAt = s.StopAt
+		}
+		p.SetSaveConsumer(st)
+		rp := &recPool{Pool: fspool.New(p.GetTargetContainer(), od), reads: map[int64]int{}}
+		fb, err := bowl.NewFreshBowl(bowl.FreshBowlParams{SourceContainer: p.GetSourceContainer(), TargetContainer: p.GetTargetContainer(), TargetPool: rp, OutputFolder: out})
+		if err != nil {
+			return fmt.Sprintf("NewFreshBowl: %v", err)
+		}
+		rb := &recBowl{Bowl: fb, writers: map[int64]int{}, transp: map[int64]int{}}
+		var c *patcher.Checkpoint
+		if ck != nil {
+			c = &patcher.Checkpoint{}
+			if err := gob.NewDecoder(bytes.NewReader(ck)).Decode(c); err != nil {
+				return fmt.Sprintf("checkpoint does not survive gob: %v", err)
+			}
+		}
+		err = p.Resume(c, rp, rb)
+		stopped := errors.Cause(err) == patcher.ErrStop
+		if err != nil && !stopped {
+			rb.Close()
+			return fmt.Sprintf("whitelisted application, session %d (stop at checkpoint %d): %v", session, s.StopAt, err)
+		}
+		if !stopped {
+			if err := rb.Commit(); err != nil {
+				return fmt.Sprintf("commit: %v", err)
+			}
+		}
+		rb.Close()
+		touched += p.GetTouchedFiles()
+		for i, n := range rb.writers {
+			calls[i] += n
+		}
+		for i, n := range rb.transp {
+			calls[i] += n
+		}
+		for idx := range rp.reads {
+			if !wantReads[idx] {
+				return fmt.Sprintf("stop/resume with a whitelist, session %d: old file %d was read although no whitelisted series references it", session, idx)
+			}
+		}
+		for i := range calls {
+			if !wl[i] {
+				return fmt.Sprintf("stop/resume with a whitelist, session %d: the bowl was asked to write file %d (%s), which is not whitelisted", session, i, dp.New.Files[i].Path)
+			}
+		}
+		if !stopped {
+			break
+		}
+		ck = st.ck
+		*cl = append(*cl, "whitelist:stopped-and-resumed")
+	}
+	if touched != int64(len(wl)) {
+		return fmt.Sprintf("stop/resume with a whitelist: sessions report %d touched files in total, the whitelist has %d", touched, len(wl))
+	}
+	for i, f := range dp.New.Files {
+		if !wl[int64(i)] {
+			continue
+		}
+		got, err := os.ReadFile(filepath.Join(out, filepath.FromSlash(f.Path)))
+		if err != nil {
+			return fmt.Sprintf("stop/resume with a whitelist: whitelisted file %s missing: %v", f.Path, err)
+		}
+		if w := want[f.Path]; w == nil || !bytes.Equal(got, w.Data) {
+			return fmt.Sprintf("stop/resume with a whitelist: whitelisted file %s differs from the new build", f.Path)
+		}
+	}
+	return ""
 }
 
 func genComp(t *rapid.T) h.Comp {
@@ -259,6 +375,16 @@ var prop = h.Prop[Spec]{
 			s.Single = rapid.IntRange(0, 12).Draw(t, "single")
 		case "bits":
 			s.Bits = rapid.SliceOfN(rapid.Bool(), 1, 8).Draw(t, "bits")
+		}
+		if rapid.IntRange(0, 2).Draw(t, "stop-and-resume") == 0 {
+			s.StopAt = rapid.IntRange(1, 4).Draw(t, "stop-at")
+			// a multi-block, multi-edit file first in the new build, so that checkpoints are offered inside it
+			oc := h.Content{{Src: 20, Len: rapid.IntRange(3, 8).Draw(t, "big-blocks")*h.BS + 77}}
+			nc := h.EditContent(t, oc, rapid.IntRange(3, 8).Draw(t, "big-edits"), nil)
+			if s.Pair.Old.CanAdd("0big") && s.Pair.New.CanAdd("0big") {
+				s.Pair.Old = s.Pair.Old.Add(h.Entry{Path: "0big", Kind: h.KFile, C: oc})
+				s.Pair.New = s.Pair.New.Add(h.Entry{Path: "0big", Kind: h.KFile, C: nc})
+			}
 		}
 		return s
 	},
